@@ -235,8 +235,12 @@ Definition run (i : ops) : outs :=
     [written] (concatenation of the writes), the set of in-flight offsets (a [RangeSpec] log:
     ranges returned by poll_transmit are added, acked / lost ranges removed) and the acked set.
     The environment is VALID while: max_len >= 16; ack(r) and retransmit(r) only for non-empty r
-    wholly in flight; retransmit_all_for_0rtt only before any ack, and it empties the in-flight
-    set (all 0-RTT packets are discarded).  From the first invalid op on the oracle is vacuous.
+    wholly in flight; retransmit_all_for_0rtt only before any ack AND while no lost range is waiting
+    for retransmission (its caller's situation: 0-RTT data is never acknowledged or declared lost
+    before the restart), and it empties the in-flight set (all 0-RTT packets are discarded).
+    With a lost range pending, the restart makes those bytes both "to retransmit" and "unsent" and
+    they are handed out twice (harmless duplicate; Props/C01.v records it as the counterexample to
+    the strict ownership invariant).  From the first invalid op on the oracle is vacuous.
     While valid it requires: no panic; every poll_transmit yields the whole range
     ([copy loop] not stuck), [0 <= start <= end <= length written], the data equals
     [slice written start (end - start)], the range was not in flight nor acked, its wire size fits
@@ -250,12 +254,12 @@ Definition total (c : list (Z * Z)) : Z := fold_left (fun acc '(s, e) => acc + (
 Definition vsize (x : Z) : Z :=
   if x <? 2 ^ 6 then 1 else if x <? 2 ^ 14 then 2 else if x <? 2 ^ 30 then 4 else 8.
 
-Fixpoint oracle_from (written : list Z) (inflight acked : log) (i : ops) (o : outs) : bool :=
+Fixpoint oracle_from (written : list Z) (inflight acked lost : log) (i : ops) (o : outs) : bool :=
   match i, o with
   | [], [] => true
   | op :: i', out :: o' =>
       match op, out with
-      | 0 :: d, _ => oracle_from (written ++ d) inflight acked i' o'
+      | 0 :: d, _ => oracle_from (written ++ d) inflight acked lost i' o'
       | [1; max_len], tag :: rs :: re :: enc :: d =>
           if max_len <? 16 then true
           else
@@ -264,19 +268,20 @@ Fixpoint oracle_from (written : list Z) (inflight acked : log) (i : ops) (o : ou
             negb (meets_range (canon inflight) rs re) && negb (meets_range (canon acked) rs re) &&
             (* the frame fits: offset varint (0 omitted) + optional 8-byte length + data *)
             ((if rs =? 0 then 0 else vsize rs) + (if enc =? 0 then 0 else 8) + (re - rs) <=? max_len) &&
-            oracle_from written (if rs <? re then (true, rs, re) :: inflight else inflight) acked i' o'
+            oracle_from written (if rs <? re then (true, rs, re) :: inflight else inflight) acked
+                        (if rs <? re then (false, rs, re) :: lost else lost) i' o'
       | [2; rs; re], _ =>
           if (rs <? re) && contains_range (canon inflight) rs re
-          then oracle_from written ((false, rs, re) :: inflight) ((true, rs, re) :: acked) i' o'
+          then oracle_from written ((false, rs, re) :: inflight) ((true, rs, re) :: acked) lost i' o'
           else true
       | [4; rs; re], _ =>
           if (rs <? re) && contains_range (canon inflight) rs re
-          then oracle_from written ((false, rs, re) :: inflight) acked i' o'
+          then oracle_from written ((false, rs, re) :: inflight) acked ((true, rs, re) :: lost) i' o'
           else true
       | [5], _ =>
-          match acked with
-          | [] => oracle_from written [] acked i' o'
-          | _ => true
+          match acked, canon lost with
+          | [], [] => oracle_from written [] acked [] i' o'
+          | _, _ => true
           end
       | [6], [fully; un; off; pending] =>
           let nacked := total (canon acked) in
@@ -285,9 +290,9 @@ Fixpoint oracle_from (written : list Z) (inflight acked : log) (i : ops) (o : ou
           (* no byte is forgotten: data is pending exactly when some written byte is neither
              in flight nor acknowledged *)
           (pending =? b2z (nacked + total (canon inflight) <? zlen written)) &&
-          oracle_from written inflight acked i' o'
+          oracle_from written inflight acked lost i' o'
       | [3; _; _], _ => true            (* raw get with arbitrary arguments may panic: stop *)
-      | _, _ => oracle_from written inflight acked i' o'
+      | _, _ => oracle_from written inflight acked lost i' o'
       end
   | op :: _, [] => false
   | [], _ :: _ => false
@@ -306,5 +311,5 @@ Definition declared_valid (i : ops) : bool :=
 Definition oracle (i : ops) (o : outs) : bool :=
   match o with
   | [[-999]] => negb (declared_valid i)
-  | _ => oracle_from [] [] [] i o
+  | _ => oracle_from [] [] [] [] i o
   end.
